@@ -59,6 +59,7 @@ extern "C" void h_trunc() {
     while (expect < NOBJ && acc + encLen[expect] <= payload) { acc += encLen[expect]; expect++; }
     vp_note("t", static_cast<uint64_t>(t)); vp_note("expect", static_cast<uint64_t>(expect));
     vp_fs_truncate("a.blf", t);
+    {
     File g;
     bool threw = false;
     try { g.open(VP_FILE("a.blf"), std::ios_base::in); } catch (const Exception &) { threw = true; }
@@ -81,5 +82,7 @@ extern "C" void h_trunc() {
     } else {
         vp_assert(expect == 0 || threw, "a file that cannot be opened has no complete object (or the library exception was raised)");
     }
+    }
+    vp_check_leaks();      // a half-read object at the cut must be released, too
     vp_reach("h_trunc:end");
 }
